@@ -131,4 +131,14 @@ PROPS["C14"] = {
     "assumptions": ["delivery = one `message` per channel subscription and one `pmessage` per matching pattern subscription (Redis semantics)", "ordering across different publishers and socket buffering are not claimed", "PUBSUB sub-commands are sent in lower case (the mux does not fold the case of the second word)"],
 }
 
+PROPS["C19"] = {
+    "lean": ["OlricModel.Props.C19"],
+    "streams": [("dmaps", (12, 150), (150, 400))],
+    "model": True,
+    "level_text": "Theorems: Destroy leaves no entry of the DMap on any member, primary or backup, every key then reads not-found, a later Put works (C19_destroy*); no operation on DMap a changes any copy of a DMap b != a whatever the keys (C19_isolation, from the frame theorem), and the answers on a do not depend on b's contents (C19_results_independent). Tied to the code by the dmaps stream: names/keys with colliding concatenations, Destroy followed by a white-box listing of all fragments' keys and a client iteration.",
+    "design_ref": "DESIGN.md §6 C19",
+    "modelled": DMAP_MODELLED + "; destroy.go/destroy_handlers.go as `destroy`",
+    "assumptions": ["the per-member locker key dmap+key used by atomic operations can make colliding names wait for each other (extra serialisation, no interference); not modelled"],
+}
+
 NOT_CLAIMED = {}
